@@ -366,6 +366,11 @@ def split_items(self, nrank, classes):
                     first suitable subclass in the list.
     """
 
+    if nrank < 0 or nrank > self._rank_:
+        raise ValueError('invalid numerator rank in %s.split_items(): %d; '
+                         'item rank is %d'
+                         % (type(self).__name__, nrank, self._rank_))
+
     obj = Qube(self._values_, self._mask_,
                nrank=nrank, drank=(self._rank_ - nrank),
                example=self)
